@@ -1,4 +1,5 @@
 import PilotaModel.Lemmas.Fuel
+import PilotaModel.Lemmas.OpsRun
 import PilotaModel.Thrift.Linked
 /-
   C01 — Thrift runtime round trip on every protocol and buffer kind.
